@@ -2,7 +2,8 @@
    on the directory that survives a kill of the recording process at any point of any operation applied to any reachable
    state.  crash_states (Model.v) = every prefix of the operation's primitive FS steps + every torn last append; they
    are the renderings of the structured crash states (ProofsString.crash_states_render), for which ProofsCrash.v shows
-   that the answers are those of the run map before or after the operation. *)
+   that the answers are those of the run map before or after the operation - since eb925d1 for Close too; and (32b069b) a
+   status update recorded by a new process after a kill inside a Write / Update is what the queries answer afterwards. *)
 From Coq Require Import List String Ascii Bool Arith ZArith Lia Permutation.
 Import ListNotations.
 From BD.Hist Require Import GoMatch Model SModel Spec ProofsLib ProofsStore ProofsString ProofsRefine ProofsCache ProofsSpec ProofsTop ProofsC06 ProofsCrash.
@@ -47,6 +48,16 @@ Proof.
   repeat split; auto.
 Qed.
 
+(* the answers of a fresh process on the rendering of a structured store are its answers on the structured store *)
+Lemma answers_render s H : keys_in D K s -> dirs_nodup s -> answers_as rname (rpath loc dirhash) s H -> answers0 (render_fs dirhash s) H.
+Proof.
+  intros KI ND A d Id. destruct (fresh_answers_render loc dirhash D days K OK s d KI ND Id) as [A1 [A2 A3]]. destruct (A d) as [B1 [B2 B3]].
+  split; [|split].
+  - intros req. rewrite A1. rewrite <- B1. destruct (sq_find rname (rpath loc dirhash) s d req); reflexivity.
+  - intros day Dy. rewrite A2 by auto. apply B2.
+  - intros n. rewrite A3. apply B3.
+Qed.
+
 (* every L0 crash state is the rendering of an L1 crash state, on which the three queries agree *)
 Lemma crash_state_l1 es o fs' : premises loc dirhash D days K (es ++ [EOp o]) ->
   In fs' (crash_states loc dirhash (y_h (yrun loc dirhash sys_init es)) o) ->
@@ -79,10 +90,10 @@ Proof.
   - intros d req Id. apply (FA d Id).
 Qed.
 
-(* open / write / update / chtimes are atomic under a kill: every crash state answers every query as the run map BEFORE
-   or AFTER the operation *)
+(* open / write / close (compaction, since eb925d1) / update / chtimes are atomic under a kill: every crash state answers every
+   query as the run map BEFORE or AFTER the operation *)
 Definition atomic_op (o : op) : bool :=
-  match o with OOpen _ _ _ _ | OWrite _ _ _ | OUpdate _ _ _ _ _ | OTouch _ _ _ _ _ => true | _ => false end.
+  match o with OOpen _ _ _ _ | OWrite _ _ _ | OClose _ | OUpdate _ _ _ _ _ | OTouch _ _ _ _ _ => true | _ => false end.
 
 Theorem crash_atomic es o fs' : premises loc dirhash D days K (es ++ [EOp o]) -> atomic_op o = true ->
   In fs' (crash_states loc dirhash (y_h (yrun loc dirhash sys_init es)) o) ->
@@ -98,36 +109,49 @@ Proof.
   { destruct o; try discriminate.
     - eapply crash_open; eauto.
     - eapply crash_write; eauto.
+    - eapply crash_close; eauto.
     - eapply crash_update; eauto.
     - eapply crash_touch; eauto. }
   destruct X as [X|X]; [left|right]; apply TR; auto.
 Qed.
 
-(* Close (compaction): find answers as before in EVERY crash state (P1, P2); all queries answer as before or after in every crash
-   state except those in which the compacted twin already holds a complete status line while the original still exists *)
-(* the window that remains (F7b): the compacted twin holds a complete status line and the original is not yet unlinked *)
-Definition twin_window0 (fs0 fs' : fs) : Prop :=
-  exists dir fn f, dirs fs' = dirs fs0 /\ files fs' = files fs0 ++ [(dir, fn, f)] /\ parse f <> None.
-
+(* the instance for Close, spelled out: no crash state of the compaction is an exception any more (before eb925d1: the window in
+   which the compacted twin was complete and the original not yet unlinked) *)
 Theorem crash_close0 es now fs' : premises loc dirhash D days K (es ++ [EOp (OClose now)]) ->
   In fs' (crash_states loc dirhash (y_h (yrun loc dirhash sys_init es)) (OClose now)) ->
-  (forall d req, In d D -> fpayload (q_find loc dirhash fs' d req) = sp_find (sp_state es) d req)
-  /\ (twin_window0 (hfs (y_h (yrun loc dirhash sys_init es))) fs'
-      \/ answers0 fs' (sp_state es) \/ answers0 fs' (sp_state (es ++ [EOp (OClose now)]))).
+  answers0 fs' (sp_state es) \/ answers0 fs' (sp_state (es ++ [EOp (OClose now)])).
+Proof. intros P IN. apply (crash_atomic es (OClose now) fs' P eq_refl IN). Qed.
+
+(* F7c repaired (32b069b): the process is killed inside a Write or an Update (any crash state, torn tails included); afterwards a NEW
+   process records a status update.  Whatever the kill left, the store then answers every query as the run map in which that update
+   is recorded - on top of the run map before or after the interrupted operation. *)
+Definition fresh_state (fs' : fs) : hstate := {| hfs := fs'; hwr := None; hcache := [] |}.
+Theorem torn_then_update0 es o fs' d req tag size now : premises loc dirhash D days K (es ++ [EOp o]) ->
+  match o with OWrite _ _ _ | OUpdate _ _ _ _ _ => True | _ => False end ->
+  In fs' (crash_states loc dirhash (y_h (yrun loc dirhash sys_init es)) o) -> In d D ->
+  let u := OUpdate d req tag size now in
+  let fs2 := hfs (apply loc dirhash (fresh_state fs') u) in
+  answers0 fs2 (sp_apply (sp_state es) u) \/ answers0 fs2 (sp_apply (sp_state (es ++ [EOp o])) u).
 Proof.
-  intros P IN. destruct (crash_state_l1 es _ fs' P IN) as [s' [IN' [E [TR FQ]]]].
-  destruct (premises_snoc es _ P) as [Pes [Oin [Ook Ohk]]].
+  intros P AO IN Id u fs2.
+  destruct (premises_snoc es o P) as [Pes [Oin [Ook Ohk]]].
   pose proof (reach_inv loc dirhash D days K OK KC es Pes) as I.
   set (ys := fold_left (ysstep loc dirhash) es ysys_init) in *.
-  destruct I as [Ih _ _ _ [L R] Iok Iseen _ _].
-  destruct (crash_close rname (rpath loc dirhash) (ys_h ys) (sp_state es) L (ys_seen ys) now s' R Iok Iseen Ook Ohk IN') as [A B].
-  split.
-  - intros d req Id. rewrite FQ by auto. apply A.
-  - rewrite sp_state_snoc. simpl fst. destruct B as [[w [fx [B1 [B2 [B3 B4]]]]]|[B|B]].
-    + left. exists (rdir dirhash (k_dag (twin (sw_key w)))), (rname (twin (sw_key w))), fx.
-      rewrite Ih, E. unfold render_state, render_fs. simpl. rewrite B2, B3, map_app. auto.
-    + right. left. apply TR; auto.
-    + right. right. apply TR; auto.
+  destruct I as [Ih _ Iin _ [L R] Iok Iseen _ _].
+  rewrite Ih in IN. rewrite (crash_states_render loc dirhash D days K OK KC o (ys_h ys) Iin Oin) in IN.
+  apply in_map_iff in IN. destruct IN as [s' [E IN]].
+  destruct Iin as [KI [ND [CI WI]]].
+  assert (SI : state_in D K (ys_h ys)) by exact (conj KI (conj ND (conj CI WI))).
+  destruct (scrash_in D K _ _ s' KI ND (sprims_in loc dirhash D days K OK KC o (ys_h ys) SI Oin) IN) as [KI' ND'].
+  assert (SD : state_in D K (dead s')). { split; auto. split; auto. split; [intros e []|exact Logic.I]. }
+  assert (UI : op_in D K u) by exact Id.
+  destruct (apply_render loc dirhash D days K OK KC u (dead s') SD UI) as [AR [KI2 [ND2 _]]].
+  assert (F2 : fs2 = render_fs dirhash (sst (sapply rname (rpath loc dirhash) (dead s') u))).
+  { unfold fs2, fresh_state. rewrite <- E. change {| hfs := render_fs dirhash s'; hwr := None; hcache := [] |} with (render_state dirhash (dead s')).
+    rewrite AR. reflexivity. }
+  rewrite F2. rewrite sp_state_snoc. simpl fst.
+  destruct (torn_then_update rname (rpath loc dirhash) (ys_h ys) (sp_state es) L o s' d req tag size now R Iok Ohk AO IN) as [X|X];
+    [left|right]; apply answers_render; auto.
 Qed.
 
 (* retention: whatever prefix of the unlinks was executed, every run NOT up for removal is found with its last status *)
